@@ -44,6 +44,7 @@ pub fn run_op(lhs: &str) -> String {
             "fragdec" => ops4::op_fragdec(args),
             "fragob" => ops4::op_fragob(args),
             "fragenc" => ops4::op_fragenc(args),
+            "faults" => ops4::op_faults(args),
             _ => format!("unknown-op {op}"),
         }
     })
